@@ -202,6 +202,174 @@ def check_part_order(run: Run) -> None:
 
 
 # ======================================================================================= R01.4
+
+# ----------------------------------------------------------------------------- indentation as arithmetic
+_SAFE_CONST_NODES = (ast.Expression, ast.Call, ast.Name, ast.Load, ast.Constant, ast.BinOp, ast.Mult, ast.Add, ast.Sub, ast.GeneratorExp, ast.ListComp, ast.comprehension, ast.Store, ast.Tuple, ast.List, ast.UnaryOp, ast.USub, ast.Subscript, ast.Slice)
+
+
+def _const_value(run: Run, em, node: ast.AST, depth: int = 0):
+    """value of a module-level constant expression built from literals, other such constants and tuple/list/range/len (tables of
+    indentation prefixes); None when it is anything else. Only these node kinds and these four builtins are ever evaluated."""
+    v = run.project.try_fold(em, node)
+    if isinstance(v, (str, int, tuple, list)) and not isinstance(v, bool):
+        return v
+    if depth > 4 or not all(isinstance(x, _SAFE_CONST_NODES) for x in ast.walk(node)):
+        return None
+    env: dict[str, object] = {}
+    bound = {t.id for c in ast.walk(node) if isinstance(c, ast.comprehension) for t in ast.walk(c.target) if isinstance(t, ast.Name)}
+    for nm in {x.id for x in ast.walk(node) if isinstance(x, ast.Name)} - bound - {"tuple", "list", "range", "len"}:
+        if not em.has_const(nm):
+            return None
+        try:
+            cn = em.const_node(nm)
+        except AnalysisError:
+            return None
+        cv = _const_value(run, em, cn, depth + 1)
+        if cv is None:
+            return None
+        env[nm] = cv
+    if any(isinstance(c, ast.Call) and not (isinstance(c.func, ast.Name) and c.func.id in ("tuple", "list", "range", "len")) for c in ast.walk(node)):
+        return None
+    try:
+        return eval(compile(ast.Expression(node), "<const>", "eval"), {"__builtins__": {}, "tuple": tuple, "list": list, "range": range, "len": len, **env})  # noqa: S307 - constant arithmetic on whitelisted nodes only
+    except Exception:
+        return None
+
+
+def _lin_add(a: dict, b: dict, k: int = 1) -> dict:
+    out = dict(a)
+    for key, v in b.items():
+        out[key] = out.get(key, 0) + k * v
+    return {key: v for key, v in out.items() if v != 0 or key == 1}
+
+
+class _Units:
+    """indentation strings as linear arithmetic: text -> number of spaces, integer expressions -> a0 + sum(ai * name)"""
+
+    def __init__(self, run: Run, em, fi: FuncInfo):
+        self.run, self.em, self.fi = run, em, fi
+
+    def const(self, e: ast.AST):
+        return _const_value(self.run, self.em, e) if not (isinstance(e, ast.Name) and not self.em.has_const(e.id)) else None
+
+    def lin(self, e: ast.AST) -> dict | None:
+        if isinstance(e, ast.Constant) and isinstance(e.value, int) and not isinstance(e.value, bool):
+            return {1: e.value}
+        if isinstance(e, ast.UnaryOp) and isinstance(e.op, ast.USub):
+            a = self.lin(e.operand)
+            return None if a is None else {key: -v for key, v in a.items()}
+        if isinstance(e, ast.Name):
+            if self.em.has_const(e.id):
+                v = self.const(e)
+                return {1: v} if isinstance(v, int) and not isinstance(v, bool) else None
+            return {e.id: 1, 1: 0}
+        if isinstance(e, ast.BinOp) and isinstance(e.op, (ast.Add, ast.Sub)):
+            a, b = self.lin(e.left), self.lin(e.right)
+            return None if a is None or b is None else _lin_add(a, b, 1 if isinstance(e.op, ast.Add) else -1)
+        if isinstance(e, ast.BinOp) and isinstance(e.op, ast.Mult):
+            a, b = self.lin(e.left), self.lin(e.right)
+            if a is not None and b is not None:
+                for c, x in ((a, b), (b, a)):
+                    if set(c) <= {1}:
+                        return {key: v * c.get(1, 0) for key, v in x.items()}
+            return None
+        if isinstance(e, ast.Call) and isinstance(e.func, ast.Name) and e.func.id in ("min", "max") and e.args and all(self.lin(a) is not None for a in e.args) and any("indent" in (self.lin(a) or {}) for a in e.args):
+            return {f"<{_text(e)}>": 1, 1: 0}  # a capped level: not linear in the nesting level
+        if isinstance(e, ast.Call) and isinstance(e.func, ast.Name) and e.func.id == "len" and len(e.args) == 1:
+            v = self.const(e.args[0])
+            return {1: len(v)} if isinstance(v, (tuple, list, str)) else None
+        return None
+
+    def units(self, e: ast.AST, depth: int = 0) -> dict | None:
+        """number of two-space units of a text expression, None if it is not (recognisably) a run of spaces"""
+        if isinstance(e, ast.Name) and not self.em.has_const(e.id) and depth < 4:
+            defs = [a.value for a in walk_no_nested(self.fi.node) if isinstance(a, ast.Assign) and len(a.targets) == 1 and isinstance(a.targets[0], ast.Name) and a.targets[0].id == e.id]
+            us = [self.units(d, depth + 1) for d in defs]
+            return us[0] if us and us[0] is not None and all(u == us[0] for u in us) else None
+        v = self.const(e) if not isinstance(e, ast.BinOp) else None
+        if isinstance(v, str):
+            return {1: len(v)} if v.strip(" ") == "" else None
+        if isinstance(e, ast.BinOp) and isinstance(e.op, ast.Add):
+            a, b = self.units(e.left, depth), self.units(e.right, depth)
+            return None if a is None or b is None else _lin_add(a, b)
+        if isinstance(e, ast.BinOp) and isinstance(e.op, ast.Mult):
+            for s_, n_ in ((e.left, e.right), (e.right, e.left)):
+                su = self.units(s_, depth) if not (isinstance(s_, ast.Constant) and not isinstance(s_.value, str)) else None
+                nl = self.lin(n_)
+                if su is not None and set(su) <= {1} and nl is not None:
+                    return {key: v * su.get(1, 0) for key, v in nl.items()}
+            return None
+        if isinstance(e, ast.Subscript) and not isinstance(e.slice, ast.Slice):
+            t = self.const(e.value)
+            if isinstance(t, (tuple, list)) and t and all(isinstance(x, str) and x.strip(" ") == "" for x in t):
+                il = self.lin(e.slice)
+                if il is None:
+                    return None
+                if set(il) <= {1}:
+                    k = il.get(1, 0)
+                    return {1: len(t[k])} if -len(t) <= k < len(t) else None
+                # a table whose k-th entry is k units: the entry selected by an in-range index has as many units as the index
+                if len(t) > 1 and all(len(x) == k * len(t[1]) for k, x in enumerate(t)):
+                    return {key: v * len(t[1]) for key, v in il.items()}
+            return None
+        return None
+
+
+def _judge_pad(run: Run, rule: str, em, fname: str, st: ast.AST, u: dict) -> None:
+    u = {k: v for k, v in u.items() if v != 0 or k == 1}
+    u.setdefault(1, 0)
+    ok = u in ({"indent": 2, 1: 0}, {"indent": 2, 1: 2})
+    shown = " + ".join(([f"{v}*{k}" for k, v in u.items() if k != 1]) + [str(u.get(1, 0))])
+    run.instance(rule, em.loc(st), f"{fname}: `{_text(st)[:80]}` is {shown} space(s)", ok=ok)
+    if not ok:
+        run.violation(rule, em, fname, st, f"an indentation string of {fname} has {shown} spaces where the nesting level is `indent` (2*indent for the own line, 2*indent + 2 for a child line): lines at that level are not indented by exactly two spaces per level (the reader then attaches them to another parent)")
+
+
+def _level_uses(run: Run, rule: str, em, fname: str, fi: FuncInfo) -> None:
+    """every read of the `indent` parameter is either handed to a callee's level parameter or is part of the definition of an
+    indentation string that has exactly `indent` or `indent + 1` two-space units - however that string is computed"""
+    parents: dict[int, ast.AST] = {}
+    for a in ast.walk(fi.node):
+        for ch in ast.iter_child_nodes(a):
+            parents[id(ch)] = a
+    U = _Units(run, em, fi)
+    judged: set[int] = set()
+    # pad strings defined from other pad strings (`child = own + "  "`): no read of `indent` in the statement itself
+    derived = [a for a in walk_no_nested(fi.node) if isinstance(a, ast.Assign) and len(a.targets) == 1 and isinstance(a.targets[0], ast.Name) and not any(isinstance(x, ast.Name) and x.id == "indent" for x in ast.walk(a.value)) and not isinstance(a.value, ast.Constant)]
+    for a in derived:
+        u = U.units(a.value)
+        if u is not None and "indent" in u:
+            _judge_pad(run, rule, em, fname, a, u)
+            judged.add(id(a))
+    for n in walk_no_nested(fi.node):
+        if not (isinstance(n, ast.Name) and n.id == "indent" and isinstance(n.ctx, ast.Load)):
+            continue
+        x: ast.AST = n
+
+        def _pkg_call(c: ast.AST | None) -> bool:
+            return isinstance(c, ast.Call) and isinstance(c.func, ast.Name) and em.has_func(c.func.id)
+
+        while not isinstance(parents[id(x)], ast.stmt) and not _pkg_call(parents[id(x)]) and not (isinstance(parents[id(x)], ast.keyword) and _pkg_call(parents.get(id(parents[id(x)])))):
+            x = parents[id(x)]
+        par = parents[id(x)]
+        if isinstance(par, (ast.Call, ast.keyword)):
+            continue  # handed to a function of the emitter: judged by the call-argument clause below
+        st = par
+        if isinstance(st, ast.If) and x is st.test:
+            # a guard is part of a pad definition when both arms do nothing but define pad strings (a table with a fallback)
+            arms = [b for b in (st.body, st.orelse) if b]
+            if len(arms) == 2 and all(isinstance(s_, ast.Assign) and len(s_.targets) == 1 and isinstance(s_.targets[0], ast.Name) for b in arms for s_ in b) and all(U.units(s_.value) is not None for b in arms for s_ in b):  # type: ignore[attr-defined]
+                continue
+            raise AnalysisError(f"{fname}: the nesting level is tested in `{_text(st.test)[:80]}` - a use of `indent` that is neither a callee's level argument nor part of an indentation string; two spaces per level is not decided for this function")
+        if isinstance(st, (ast.Assign, ast.AnnAssign)) and st.value is not None and id(st) not in judged:
+            judged.add(id(st))
+            u = U.units(st.value)
+            if u is None:
+                raise AnalysisError(f"{fname}: `{_text(st)[:100]}` uses the nesting level in a way this check does not read as an indentation string; two spaces per level is not decided for this function")
+            _judge_pad(run, rule, em, fname, st, u)
+        elif not isinstance(st, (ast.Assign, ast.AnnAssign)):
+            raise AnalysisError(f"{fname}: `{_text(st)[:100]}` uses the nesting level outside an indentation string or a callee's level argument; not decided")
+
 EMIT_FUNCS = {"emit_assignment", "emit_block", "emit_section", "emit_comment", "emit_value", "_emit_multiline_list", "_emit_leading_comments"}
 
 
@@ -219,9 +387,11 @@ def check_indent(run: Run, rule: str = "R01.4") -> None:
                 pads[a.targets[0].id] = _text(a.value.right).strip("()")
         params = [a.arg for a in fi.node.args.args]  # type: ignore[attr-defined]
         has_indent = "indent" in params
+        if has_indent:
+            _level_uses(run, rule, em, fname, fi)
         for n in walk_no_nested(fi.node):
             # indentation strings
-            if isinstance(n, ast.BinOp) and isinstance(n.op, ast.Mult) and isinstance(n.left, ast.Constant) and isinstance(n.left.value, str) and n.left.value.strip() == "" and n.left.value:
+            if not has_indent and isinstance(n, ast.BinOp) and isinstance(n.op, ast.Mult) and isinstance(n.left, ast.Constant) and isinstance(n.left.value, str) and n.left.value.strip() == "" and n.left.value:
                 ok = n.left.value == "  "
                 run.instance(rule, em.loc(n), f"{fname}: indentation unit {n.left.value!r} * {_text(n.right)}", ok=ok)
                 if not ok:
